@@ -18,7 +18,7 @@ REPLAY = os.path.join(VERIF, "replay")
 GUARD_CFG = "toml_rs_toml_verif"
 
 FORBIDDEN = re.compile(
-    r"\b(Admitted|admit|Axiom|Axioms|Parameter|Parameters|Conjecture|Conjectures|Abort All|give_up)\b"
+    r"\b(Admitted|admit|Axiom|Axioms|Parameter|Parameters|Conjecture|Conjectures|Abort|give_up)\b"
     r"|Unset\s+Guard|bypass_check|type-in-type|impredicative-set|Admit\s+Obligations|Unset\s+Positivity|Unset\s+Universe")
 ALLOWED_AXIOMS_FILE = os.path.join(VERIF, "lib", "assumptions_allow.txt")
 
@@ -133,6 +133,17 @@ def audit_sources(files=None):
                 txt = re.sub(r"\(\*(?:(?!\(\*|\*\)).)*\*\)", " ", txt, flags=re.S)
             for m in FORBIDDEN.finditer(txt):
                 bad.append("%s: %s" % (os.path.relpath(p, COQ), m.group(0)))
+            # Variable / Hypothesis / Context declare an axiom when they stand outside a Section
+            stack = []
+            for line in txt.split("\n"):
+                st = line.strip()
+                m = re.match(r"(Section|Module Type|Module)\s+\w+[^:=]*\.\s*$", st)
+                if m:
+                    stack.append(m.group(1))
+                elif re.match(r"End\s+\w+\s*\.", st) and stack:
+                    stack.pop()
+                elif "Section" not in stack and re.match(r"(Variable|Variables|Hypothesis|Hypotheses|Context)\b", st):
+                    bad.append("%s: %s outside a Section" % (os.path.relpath(p, COQ), st[:60]))
     return bad
 
 
